@@ -1,5 +1,5 @@
 /-
-L8 — a whole run of `cnfgen`: argv ↦ the text written to stdout, with the module-level generator as an explicit
+L8 — a whole run of `cnfgen` or `pbgen`: argv ↦ the text written to stdout, with the module-level generator as an explicit
 input.  The model COMPOSES what exists — it adds no new sampler or family:
 
   * the ORDER of the steps is the phase table regenerated from the source (`Generated/Phases.lean`): `cliRun`
@@ -9,7 +9,7 @@ input.  The model COMPOSES what exists — it adds no new sampler or family:
     (`parse_graph_argument` + `obtain_graph`, all in-house samplers as functions of draws);
     `networkx.gnp_random_graph` is modelled here (`nxGnp`: one `random()` per pair, in `combinations` order);
   * `randkcnf [-p]`, `randkxor [-p]`: `Rand.cliRandKCNF`, `Rand.cliRandKXORSys`; `kcolor k G`: `Fam.coloring`;
-  * header + text: `IO.renderDimacsText`.
+  * header + text: `IO.renderDimacsText` (cnfgen), `IO.renderOpbText` of the OPB rendering (pbgen, `formula_class=OPB`).
 
 The generator.  A state of Python's generator is represented by what it WILL answer (`Rng`): the record of the
 answers to the calls of the graph samplers (`GRand.Draw`) and to the calls of the formula samplers (`Rand.Draw`) —
@@ -31,6 +31,7 @@ import CnfgenModel.Cli.GraphSpecObtain
 import CnfgenModel.Rand.KXOR
 import CnfgenModel.Fam.Coloring
 import CnfgenModel.IO.Dimacs
+import CnfgenModel.IO.Opb
 namespace Cnfgen.CliRun
 open Cnfgen Cnfgen.Cli Cnfgen.GenPh
 
@@ -181,7 +182,7 @@ structure RState where
   top : Top := {}
   call : Option Call := none
   graph : Option (SimpleG × String) := none
-  formula : Option (CNF × List (String × String)) := none      -- clauses and header, in order
+  formula : Option (Formula × List (String × String)) := none  -- constraints (as added) and header, in order
   usedGraph : Nat := 0          -- answers consumed by the graph samplers
   usedFormula : Nat := 0        -- answers consumed by the formula samplers
   deriving Inhabited
@@ -248,7 +249,7 @@ def stepBuild (w : World) (st : RState) : Except Outcome RState :=
           let d := "Random " ++ toString k ++ "-CNF over " ++ toString n ++ " variables and " ++ toString m ++ " clauses"
           .ok { st with rng := { st.rng with formula := rest },
                         usedFormula := st.usedFormula + (st.rng.formula.length - rest.length),
-                        formula := some (F.toCNF, ("description", d) :: w.baseHeader) }
+                        formula := some (F, ("description", d) :: w.baseHeader) }
       | _ => .error (.unsupported "call shape")
     else if c.fn == "RandomKXOR" then
       match intArgs c with
@@ -259,7 +260,7 @@ def stepBuild (w : World) (st : RState) : Except Outcome RState :=
           let d := "Random " ++ toString k ++ "-xor over " ++ toString n ++ " variables and " ++ toString m ++ " clauses"
           .ok { st with rng := { st.rng with formula := rest },
                         usedFormula := st.usedFormula + (st.rng.formula.length - rest.length),
-                        formula := some ((Rand.kxorFormula n.toNat sys).toCNF, ("description", d) :: w.baseHeader) }
+                        formula := some (Rand.kxorFormula n.toNat sys, ("description", d) :: w.baseHeader) }
       | _ => .error (.unsupported "call shape")
     else if c.fn == "GraphColoringFormula" then
       match st.graph, intArgs c with
@@ -269,16 +270,21 @@ def stepBuild (w : World) (st : RState) : Except Outcome RState :=
         | .error e => .error (.crash e)
         | .ok F =>
           let d := "Graph " ++ toString k ++ "-Colorability of " ++ nm
-          .ok { st with formula := some (F.toCNF, ("description", d) :: w.baseHeader) }
+          .ok { st with formula := some (F, ("description", d) :: w.baseHeader) }
       | _, _ => .error (.unsupported "call shape")
     else .error (.unsupported "generator")
 
-def render (st : RState) : Outcome :=
+/-- `to_file(args.output, fileformat, export_header=args.verbose)`: DIMACS for cnfgen, OPB for pbgen (their
+default formats; `formula_class` is CNF resp. OPB) -/
+def render (t : ToolPhases) (st : RState) : Outcome :=
   match st.formula with
   | none => .unsupported "output before build"
   | some (F, hdr) =>
     let h : IO.Header := hdr.map (fun e => (e.1.toList, e.2.toList))
-    .text (String.ofList (IO.renderDimacsText F (if st.top.verbose then some h else none) none))
+    let hdr? := if st.top.verbose then some h else none
+    if t.tool == "cnfgen" then .text (String.ofList (IO.renderDimacsText F.toCNF hdr? none))
+    else if t.tool == "pbgen" then .text (String.ofList (IO.renderOpbText F.toOPB hdr? none))
+    else .unsupported "tool"
 
 def stepEv (σ : Int → Rng) (w : World) (t : ToolPhases) (argv : List String) (st : RState) :
     Ev → Except Outcome RState
@@ -297,10 +303,10 @@ def stepEv (σ : Int → Rng) (w : World) (t : ToolPhases) (argv : List String) 
       | some s, some (F, h) => .ok { st with formula := some (F, setHeader h "random seed" (toString s)) }
       | _, _ => .error (.unsupported "header")
     else .ok st
-  | .headerCmdline =>
+  | .headerCmdline pre =>
     match st.formula with
     | some (F, h) =>
-      .ok { st with formula := some (F, setHeader h "command line" ("cnfgen " ++ " ".intercalate (argv.drop 1))) }
+      .ok { st with formula := some (F, setHeader h "command line" (pre ++ " ".intercalate (argv.drop 1))) }
     | none => .error (.unsupported "header")
   | .output _ => .ok st
   | .draw _ => .error (.unsupported "draw in cli()")
@@ -313,7 +319,7 @@ def runFrom (σ : Int → Rng) (w : World) (t : ToolPhases) (argv : List String)
     List Ev → RState → Outcome × Nat × Nat
   | [], st => (.unsupported "no output event", st.usedGraph, st.usedFormula)
   | e :: es, st =>
-    if isOutput e then (render st, st.usedGraph, st.usedFormula)
+    if isOutput e then (render t st, st.usedGraph, st.usedFormula)
     else match stepEv σ w t argv st e with
       | .error o => (o, st.usedGraph, st.usedFormula)
       | .ok st' => runFrom σ w t argv es st'
@@ -322,11 +328,15 @@ def runFrom (σ : Int → Rng) (w : World) (t : ToolPhases) (argv : List String)
 def runTable (σ : Int → Rng) (w : World) (t : ToolPhases) (argv : List String) (rng₀ : Rng) : Outcome × Nat × Nat :=
   runFrom σ w t argv t.events { rng := rng₀ }
 
-/-- a run of cnfgen as the CURRENT source orders it -/
-def cliRun (σ : Int → Rng) (w : World) (argv : List String) (rng₀ : Rng) : Outcome × Nat × Nat :=
-  match phasesOf "cnfgen" with
+/-- a run of `tool` (cnfgen / pbgen) as the CURRENT source orders it -/
+def toolRun (tool : String) (σ : Int → Rng) (w : World) (argv : List String) (rng₀ : Rng) : Outcome × Nat × Nat :=
+  match phasesOf tool with
   | some t => runTable σ w t argv rng₀
   | none => (.unsupported "no phase table", 0, 0)
+
+/-- a run of cnfgen as the CURRENT source orders it -/
+def cliRun (σ : Int → Rng) (w : World) (argv : List String) (rng₀ : Rng) : Outcome × Nat × Nat :=
+  toolRun "cnfgen" σ w argv rng₀
 
 /-- the seed option of a command line of the fragment -/
 def seedOf (argv : List String) : Option Int :=
